@@ -299,7 +299,7 @@ impl Check for C02 {
         };
         if arm.is_ok() {
             let mut rng = rng_from(case_seed(seed ^ 0xC02E2, idx));
-            let k = crate::e2::c01::GenKnobs { max_nodes: 4, max_ops: 30, span_ms: 12_000, level_bias_none: 0.4 };
+            let k = crate::e2::c01::GenKnobs { max_nodes: 4, max_ops: 30, span_ms: 12_000, level_bias_none: 0.4, ghosts: 0.1, big_bulk: 0.03 };
             let sc = match rng.gen_range(0..10) {
                 0..=2 => crate::e2::c01::gen_burst_scenario(&mut rng),
                 3..=5 => crate::e2::c01::gen_real_scenario(&mut rng),
